@@ -4,6 +4,18 @@ SHAPE_NOTE = ("Container shapes in the typing context are fixed and small while 
               "(floats as reals); pyvc itself is trusted (cross-checked against CPython on solver-generated inputs each run).")
 
 META = {
+    "C01": {
+        "text": "Proved: Forcefield.get_params/get_names return exactly the table entry for (residue key, atom key) and "
+                "(None, None) otherwise; apply_force_field uses the state-qualified key for amino acids/water/nucleotides "
+                "and the plain name otherwise, writes only found parameters, never defaults or borrows, and partitions "
+                "the atoms into written/unassigned in model order; non_trivial serialises exactly the written list and "
+                "reports the other; every set_state override names the state as documented. X: 17 201 map cells of the "
+                "six shipped force fields traced to .DAT rows by an independent parse, 397 pipeline runs compared atom by "
+                "atom with the resolved rows.",
+        "note": "Symbolic string keys on small table/model shapes; the .names regex machinery (SAX, re) is external: its "
+                "result is checked for the shipped files only (X), user-supplied .names semantics are not covered; the DAT "
+                "parsing loop is covered by the X table, not by a contract. " + SHAPE_NOTE,
+    },
     "C02": {
         "text": "Proved: state-qualified naming of every set_state override under contract (terminus prefix x side-chain "
                 "state, nucleotides), Residue.charge = sum of assigned charges to 4 decimals, the integrality guard, and "
